@@ -52,7 +52,6 @@ HANDLER = {"get": consts.HANDLE_GETATTR, "set": consts.HANDLE_SETATTR, "del": co
            "call": consts.HANDLE_CALLATTR}
 DEFAULT_SNAPSHOT = copy.deepcopy(P.DEFAULT_CONFIG)
 DEFAULT_SAFE_ID = id(P.DEFAULT_CONFIG.get("safe_attrs"))
-INHERENT = set(dir(object())) | {"__dict__", "__weakref__", "__module__", "__slots__"}
 SMALL_SAFE = ("__len__", "__safe__", "next")
 
 
@@ -132,6 +131,18 @@ def _mk_class(hg, hs, hd, meta=type):
 
 
 CLASSES = {h: _mk_class(*h) for h in itertools.product((0, 1), repeat=3)}
+
+
+# attributes every instance of the logging classes has without being given them (object's methods, __dict__, hooks ...):
+# cases that involve one of them are restricted to plain reads, and their presence is taken from the class
+INHERENT = set()
+for _c in CLASSES.values():
+    INHERENT |= set(dir(_c()))
+
+
+def class_has(o, x):
+    """does o have attribute x without having been given it (found on its class, not on the metaclass)"""
+    return any(x in k.__dict__ for k in type(o).__mro__)
 
 
 def make_obj(attrs, hooks=(0, 0, 0)):
@@ -305,7 +316,7 @@ class Batch(object):
         prefix = cfg["exposed_prefix"]
 
         def has(x):
-            return x in attrs or x in INHERENT
+            return x in attrs or class_has(o, x)
         hook = bool(hooks[PERMIDX[op]])
         exp = oracle(cfg, op, nm, has, hook)
         res, log = run_impl(conn, op, name_value(nm), o)
@@ -318,7 +329,7 @@ class Batch(object):
         ctx.count("%s:%s:%s" % (phase, op, exp[0]))
         self.judge(case, exp, res, log, sorted(attrs), after, text, prefix, op)
         if self.model is not None:
-            model_attrs = list(attrs) + [x for x in ((text, prefix + text) if text is not None else ()) if x in INHERENT and x not in attrs]
+            model_attrs = list(attrs) + [x for x in ((text, prefix + text) if text is not None else ()) if class_has(o, x) and x not in attrs]
             self.pending.append((case, exp, res, log, after, model_attrs,
                                  ["access", int(self.facts["decode_guarded"]), cfg_sx(cfg), PERMIDX[op], name_sx(nm),
                                   [[T(a) for a in model_attrs], int(hooks[0]), int(hooks[1]), int(hooks[2])]]))
@@ -555,7 +566,7 @@ def random_cases(ctx, b, n):
         attrs = sorted(a for a in attrs if a not in INHERENT)
         hooks = tuple(int(r.random() < 0.12) for _ in range(3))
         inherent = t is not None and (t in INHERENT or prefix + t in INHERENT)
-        op = r.choice(["get", "call"]) if inherent else r.choice(["get", "get", "set", "del", "call"])
+        op = "get" if inherent else r.choice(["get", "get", "set", "del", "call"])
         if op == "call" and hooks[0]:
             hooks = (0,) + hooks[1:]
         b.add(cfg, op, nm, attrs, hooks, "random")
